@@ -1,6 +1,122 @@
 (** Round-trip, length and well-formedness theorems for the [struct] model. *)
 From Coq Require Import Lia ZifyBool ZifyNat ZifyN.
-From NX Require Import Bytes PyStruct StructCanon Bytes_proofs.
+From Coq Require String.
+From NX Require Import Bytes PyStruct StructCanon Bytes_proofs Float Rn53.
+
+(** * range of the IEEE encoder's output *)
+Section Ieee_bound.
+Open Scope Z_scope.
+
+Lemma rne_shift_bound a sh k :
+  0 <= k -> 0 <= a < 2 ^ (sh + k) -> 0 <= rne_shift a sh <= 2 ^ k.
+Proof.
+  intros Hk Ha. unfold rne_shift.
+  destruct (sh <=? 0) eqn:Hs.
+  - apply Z.leb_le in Hs.
+    destruct (Z.neg_nonneg_cases (sh + k)) as [Hn|Hn].
+    { rewrite Z.pow_neg_r in Ha by exact Hn. lia. }
+    assert (E : 2 ^ (sh + k) * 2 ^ (- sh) = 2 ^ k).
+    { rewrite <- Z.pow_add_r by lia. f_equal. lia. }
+    assert (0 < 2 ^ (- sh)) by (apply Z.pow_pos_nonneg; lia).
+    nia.
+  - apply Z.leb_gt in Hs. cbv zeta.
+    rewrite Z.shiftr_div_pow2 by lia.
+    assert (Hp : 0 < 2 ^ sh) by (apply Z.pow_pos_nonneg; lia).
+    assert (Hq : 0 <= a / 2 ^ sh < 2 ^ k).
+    { split; [apply Z.div_pos; lia|].
+      apply Z.div_lt_upper_bound; [exact Hp|].
+      rewrite <- Z.pow_add_r by lia. tauto. }
+    destruct (_ || _); lia.
+Qed.
+
+Lemma fields_bound X B top k r :
+  0 < X -> 0 <= B -> top = 0 \/ top = 2 * (B + 1) * X ->
+  1 <= k <= 2 * B -> - X <= r < X ->
+  0 <= top + k * X + r < 4 * (B + 1) * X.
+Proof.
+  intros HX HB Ht Hk Hr.
+  assert (X <= k * X) by nia.
+  assert (k * X <= 2 * B * X) by nia.
+  destruct Ht; subst top; nia.
+Qed.
+
+Theorem ieee_encode_range p ew num e b :
+  1 <= p -> 1 <= ew ->
+  ieee_encode p ew num e = Some b -> 0 <= b < 2 ^ (ew + p).
+Proof.
+  intros Hp Hew. unfold ieee_encode. cbv zeta.
+  set (bias := 2 ^ (ew - 1) - 1).
+  set (top := Z.shiftl (if num <? 0 then 1 else 0) (ew + p - 1)).
+  assert (Hb0 : 0 <= bias) by (subst bias; pose proof (Z.pow_pos_nonneg 2 (ew - 1)); lia).
+  assert (Hpp : 0 < 2 ^ (p - 1)) by (apply Z.pow_pos_nonneg; lia).
+  assert (Hpe : 2 ^ (ew + p - 1) = 2 ^ ew * 2 ^ (p - 1)).
+  { rewrite <- Z.pow_add_r by lia. f_equal. lia. }
+  assert (Hpe2 : 2 ^ (ew + p) = 2 * 2 ^ (ew + p - 1)).
+  { replace (ew + p) with (Z.succ (ew + p - 1)) at 1 by lia. apply Z.pow_succ_r. lia. }
+  assert (Hew2 : 2 ^ ew = 2 * (bias + 1)).
+  { subst bias. replace ew with (Z.succ (ew - 1)) at 1 by lia. rewrite Z.pow_succ_r by lia. lia. }
+  assert (Hp2 : 2 ^ p = 2 * 2 ^ (p - 1)).
+  { replace p with (Z.succ (p - 1)) at 1 by lia. apply Z.pow_succ_r. lia. }
+  assert (Htop : top = 0 \/ top = 2 ^ (ew + p - 1)).
+  { subst top. destruct (num <? 0); [right|left].
+    - rewrite Z.shiftl_mul_pow2 by lia. lia.
+    - apply Z.shiftl_0_l. }
+  clearbody top bias.
+  assert (Hall : 2 ^ (ew + p) = 4 * (bias + 1) * 2 ^ (p - 1)) by nia.
+  assert (Htop' : top = 0 \/ top = 2 * (bias + 1) * 2 ^ (p - 1)) by (destruct Htop; [left|right]; nia).
+  assert (Hpos : 0 < 2 ^ (ew + p - 1)) by (apply Z.pow_pos_nonneg; lia).
+  destruct (Z.abs num =? 0) eqn:Ea.
+  { intros H; injection H as <-. lia. }
+  apply Z.eqb_neq in Ea.
+  assert (Hapos : 0 < Z.abs num) by lia.
+  pose proof (Z.log2_spec _ Hapos) as HL.
+  pose proof (Z.log2_nonneg (Z.abs num)) as HL0.
+  set (L := Z.log2 (Z.abs num)) in *.
+  destruct (L - e <? 1 - bias) eqn:Esub.
+  - apply Z.ltb_lt in Esub.
+    match goal with |- Some (top + ?r) = Some b -> _ => set (m := r) end.
+    assert (Hm : 0 <= m <= 2 ^ (p - 1)).
+    { subst m. apply rne_shift_bound; [lia|]. split; [lia|].
+      eapply Z.lt_le_trans; [apply HL|]. apply Z.pow_le_mono_r; lia. }
+    clearbody m. intros H; injection H as <-.
+    rewrite Hall. clear - Hm Htop' Hpp Hb0. destruct Htop' as [-> | ->]; nia.
+  - apply Z.ltb_ge in Esub.
+    assert (Hm : 0 <= rne_shift (Z.abs num) (L - (p - 1)) <= 2 ^ p).
+    { apply rne_shift_bound; [lia|]. split; [lia|].
+      replace (L - (p - 1) + p) with (Z.succ L) by lia. apply HL. }
+    set (m := rne_shift (Z.abs num) (L - (p - 1))) in *.
+    destruct (m =? 2 ^ p) eqn:Em.
+    + destruct (bias <? L - e + 1) eqn:Eo; [discriminate|].
+      apply Z.ltb_ge in Eo. intros H; injection H as <-.
+      rewrite Z.shiftl_mul_pow2 by lia. rewrite Hall.
+      replace (2 ^ (p - 1) - 2 ^ (p - 1)) with 0 by lia.
+      apply fields_bound; lia.
+    + apply Z.eqb_neq in Em.
+      destruct (bias <? L - e) eqn:Eo; [discriminate|].
+      apply Z.ltb_ge in Eo. intros H; injection H as <-.
+      rewrite Z.shiftl_mul_pow2 by lia. rewrite Hall.
+      apply fields_bound; lia.
+Qed.
+
+(** no overflow below the largest exponent: |num / 2^e| < 2^bias is encoded *)
+Lemma ieee_encode_some p ew num e :
+  Z.log2 (Z.abs num) - e < 2 ^ (ew - 1) - 1 -> exists b, ieee_encode p ew num e = Some b.
+Proof.
+  intros H. unfold ieee_encode. cbv zeta.
+  destruct (Z.abs num =? 0); [eexists; reflexivity|].
+  destruct (Z.log2 (Z.abs num) - e <? 1 - (2 ^ (ew - 1) - 1)); [eexists; reflexivity|].
+  destruct (rne_shift (Z.abs num) (Z.log2 (Z.abs num) - (p - 1)) =? 2 ^ p).
+  - replace (2 ^ (ew - 1) - 1 <? Z.log2 (Z.abs num) - e + 1) with false by lia. eexists; reflexivity.
+  - replace (2 ^ (ew - 1) - 1 <? Z.log2 (Z.abs num) - e) with false by lia. eexists; reflexivity.
+Qed.
+
+Lemma f32_encode_range n e b : f32_encode n e = Some b -> 0 <= b < 2 ^ 32.
+Proof. intros H. apply (ieee_encode_range 24 8 n e b) in H; [exact H|lia|lia]. Qed.
+
+Lemma f64_encode_range n e b : f64_encode n e = Some b -> 0 <= b < 2 ^ 64.
+Proof. intros H. apply (ieee_encode_range 53 11 n e b) in H; [exact H|lia|lia]. Qed.
+End Ieee_bound.
+
 Ltac Zify.zify_post_hook ::= Z.to_euclidean_division_equations.
 Open Scope N_scope.
 
@@ -111,19 +227,125 @@ Proof.
     rewrite dec_enc_small by apply unsgn_lt. now rewrite of_N_unsgn.
 Qed.
 
+(** float codes: what is written is the bit pattern [canon_one] names *)
+Lemma f32_bits_range v b : f32_bits v = Some b -> (0 <= b < 2 ^ 32)%Z.
+Proof.
+  destruct v; cbn [f32_bits int_of_value]; try discriminate;
+    try (destruct (f64_of_int _); [|discriminate]); apply f32_encode_range.
+Qed.
+
+Lemma f64_bits_range v b : f64_bits v = Some b -> (0 <= b < 2 ^ 64)%Z.
+Proof.
+  destruct v; cbn [f64_bits int_of_value]; try discriminate; apply f64_encode_range.
+Qed.
+
+Lemma pack_one_f e v : pack_one e Cf v =
+  match v with
+  | VF32 bits => if bits <? pow256 4 then Some (enc e 4 bits) else None
+  | _ => option_map (fun b => enc e 4 (Z.to_N b)) (f32_bits v)
+  end.
+Proof.
+  destruct v; try reflexivity; unfold pack_one, f32_bits; cbn [int_of_value];
+    destruct (f64_of_int _); reflexivity.
+Qed.
+
+Lemma pack_one_d e v : pack_one e Cd v =
+  match v with
+  | VF64 bits => if bits <? pow256 8 then Some (enc e 8 bits) else None
+  | _ => option_map (fun b => enc e 8 (Z.to_N b)) (f64_bits v)
+  end.
+Proof. destruct v; reflexivity. Qed.
+
+Lemma pow256_4 : pow256 4 = 4294967296. Proof. reflexivity. Qed.
+Lemma pow256_8 : pow256 8 = 18446744073709551616. Proof. reflexivity. Qed.
+
+Lemma pack_one_f_inv e v b : pack_one e Cf v = Some b ->
+  exists bits, b = enc e 4 bits /\ bits < pow256 4 /\ canon_one Cf v = VF32 bits.
+Proof.
+  rewrite pack_one_f. cbn [canon_one].
+  destruct v;
+    try (destruct (f32_bits _) as [w|] eqn:E; cbn [option_map]; [|discriminate];
+         intros H; injection H as <-; exists (Z.to_N w);
+         apply f32_bits_range in E; rewrite pow256_4;
+         change (2 ^ 32)%Z with 4294967296%Z in E; repeat split; lia).
+  cbn [f32_bits]. destruct (bits <? pow256 4) eqn:E; [|discriminate].
+  intros H; injection H as <-. exists bits. repeat split. lia.
+Qed.
+
+Lemma pack_one_d_inv e v b : pack_one e Cd v = Some b ->
+  exists bits, b = enc e 8 bits /\ bits < pow256 8 /\ canon_one Cd v = VF64 bits.
+Proof.
+  rewrite pack_one_d. cbn [canon_one].
+  destruct v;
+    try (destruct (f64_bits _) as [w|] eqn:E; cbn [option_map]; [|discriminate];
+         intros H; injection H as <-; exists (Z.to_N w);
+         apply f64_bits_range in E; rewrite pow256_8;
+         change (2 ^ 64)%Z with 18446744073709551616%Z in E; repeat split; lia).
+  cbn [f64_bits]. destruct (bits <? pow256 8) eqn:E; [|discriminate].
+  intros H; injection H as <-. exists bits. repeat split. lia.
+Qed.
+
+(** an integer given to a float code is converted, not refused: 'd' for every
+    |z| < 2^1023, 'f' (shown here for the integers a double holds exactly) *)
+Lemma log2_abs_lt z k : (0 < k)%Z -> (Z.abs z < 2 ^ k)%Z -> (Z.log2 (Z.abs z) < k)%Z.
+Proof.
+  intros Hk H. destruct (Z.eq_dec (Z.abs z) 0) as [->|N]; [cbn; lia|].
+  apply Z.log2_lt_pow2; lia.
+Qed.
+
+Lemma rn53_exact z : (Z.abs z <= 2 ^ 53)%Z -> rn53 z = z.
+Proof.
+  intros H. unfold rn53. destruct (z =? 0)%Z eqn:E0; [lia|].
+  assert (P : forall y, (0 < y <= 2 ^ 53)%Z -> rn53_pos y = y).
+  { intros y Hy. unfold rn53_pos.
+    destruct (Z.eq_dec y (2 ^ 53)) as [->|Ny]; [vm_compute; reflexivity|].
+    assert (L : (Z.log2 y < 53)%Z) by (apply Z.log2_lt_pow2; lia).
+    replace (Z.log2 y + 1 <=? 53)%Z with true by lia. reflexivity. }
+  destruct (0 <? z)%Z eqn:Ep.
+  - apply P. lia.
+  - rewrite P by lia. lia.
+Qed.
+
+Theorem pack_d_int e z : (Z.abs z < 2 ^ 1023)%Z ->
+  exists b, f64_of_int z = Some b /\ (0 <= b < 2 ^ 64)%Z /\
+            pack_one e Cd (VInt z) = Some (enc e 8 (Z.to_N b)) /\
+            canon_one Cd (VInt z) = VF64 (Z.to_N b).
+Proof.
+  intros H. destruct (ieee_encode_some 53 11 z 0) as [b Hb].
+  { pose proof (log2_abs_lt z 1023 ltac:(lia) H). change (2 ^ (11 - 1) - 1)%Z with 1023%Z. lia. }
+  exists b. split; [exact Hb|]. split; [exact (f64_encode_range _ _ _ Hb)|].
+  unfold pack_one, canon_one, f64_bits. cbn [int_of_value]. unfold f64_of_int, f64_encode in *.
+  rewrite Hb. split; reflexivity.
+Qed.
+
+Theorem pack_f_int e z : (Z.abs z <= 2 ^ 53)%Z ->
+  exists b, f32_encode z 0 = Some b /\ (0 <= b < 2 ^ 32)%Z /\
+            pack_one e Cf (VInt z) = Some (enc e 4 (Z.to_N b)) /\
+            canon_one Cf (VInt z) = VF32 (Z.to_N b).
+Proof.
+  intros H.
+  assert (H53 : (Z.log2 (Z.abs z) < 54)%Z) by (apply log2_abs_lt; lia).
+  destruct (ieee_encode_some 53 11 z 0) as [d Hd].
+  { change (2 ^ (11 - 1) - 1)%Z with 1023%Z. lia. }
+  destruct (ieee_encode_some 24 8 z 0) as [b Hb].
+  { change (2 ^ (8 - 1) - 1)%Z with 127%Z. lia. }
+  exists b. split; [exact Hb|]. split; [exact (f32_encode_range _ _ _ Hb)|].
+  unfold pack_one, canon_one, f32_bits. cbn [int_of_value]. unfold f64_of_int, f64_encode, f32_encode in *.
+  rewrite Hd, (rn53_exact z H), Hb. split; reflexivity.
+Qed.
+
 Lemma pack_one_length e c v b : pack_one e c v = Some b -> length b = code_size c.
 Proof.
   destruct (code_is_int c) eqn:Hc.
   - rewrite pack_one_int by exact Hc. apply pack_int_length.
-  - destruct c; try discriminate Hc; cbn [pack_one code_size].
+  - destruct c; try discriminate Hc.
     + discriminate.
-    + destruct v as [| |[|x [|y l]]| |]; try discriminate.
+    + cbn [pack_one code_size]. destruct v as [| |[|x [|y l]]| | |]; try discriminate.
       destruct (is_byte x); [|discriminate]. intros H; injection H as <-. reflexivity.
-    + destruct v; try discriminate; intros H; injection H as <-; reflexivity.
-    + destruct v; try discriminate. destruct (bits <? pow256 4); [|discriminate].
-      intros H; injection H as <-. apply enc_length.
-    + destruct v; try discriminate. destruct (bits <? pow256 8); [|discriminate].
-      intros H; injection H as <-. apply enc_length.
+    + cbn [pack_one code_size].
+      destruct v; try discriminate; intros H; injection H as <-; reflexivity.
+    + intros H. apply pack_one_f_inv in H. destruct H as (bits & -> & _). apply enc_length.
+    + intros H. apply pack_one_d_inv in H. destruct H as (bits & -> & _). apply enc_length.
     + discriminate.
 Qed.
 
@@ -131,17 +353,16 @@ Lemma pack_one_wf e c v b : pack_one e c v = Some b -> wf_bytes b.
 Proof.
   destruct (code_is_int c) eqn:Hc.
   - rewrite pack_one_int by exact Hc. apply pack_int_wf.
-  - destruct c; try discriminate Hc; cbn [pack_one].
+  - destruct c; try discriminate Hc.
     + discriminate.
-    + destruct v as [| |[|x [|y l]]| |]; try discriminate.
+    + cbn [pack_one]. destruct v as [| |[|x [|y l]]| | |]; try discriminate.
       destruct (is_byte x) eqn:Ex; [|discriminate]. intros H; injection H as <-.
       constructor; [|constructor]. unfold is_byte in Ex. lia.
-    + destruct v as [z|[|]| | |]; try discriminate; intros H; injection H as <-;
+    + cbn [pack_one].
+      destruct v as [z|[|]| | | |]; try discriminate; intros H; injection H as <-;
         (constructor; [|constructor]); try destruct (z =? 0)%Z; lia.
-    + destruct v; try discriminate. destruct (bits <? pow256 4); [|discriminate].
-      intros H; injection H as <-. apply enc_wf.
-    + destruct v; try discriminate. destruct (bits <? pow256 8); [|discriminate].
-      intros H; injection H as <-. apply enc_wf.
+    + intros H. apply pack_one_f_inv in H. destruct H as (bits & -> & _). apply enc_wf.
+    + intros H. apply pack_one_d_inv in H. destruct H as (bits & -> & _). apply enc_wf.
     + discriminate.
 Qed.
 
@@ -153,17 +374,19 @@ Lemma unpack_pack_one e c v b :
 Proof.
   destruct (code_is_int c) eqn:Hc.
   - rewrite pack_one_int by exact Hc. apply unpack_pack_int. exact Hc.
-  - destruct c; try discriminate Hc; cbn [pack_one unpack_one canon_one].
+  - destruct c; try discriminate Hc.
     + discriminate.
-    + destruct v as [| |[|x [|y l]]| |]; try discriminate.
+    + cbn [pack_one unpack_one canon_one].
+      destruct v as [| |[|x [|y l]]| | |]; try discriminate.
       destruct (is_byte x); [|discriminate]. intros H; injection H as <-. reflexivity.
-    + destruct v as [z|[|]| | |]; try discriminate; intros H; injection H as <-;
+    + cbn [pack_one unpack_one canon_one].
+      destruct v as [z|[|]| | | |]; try discriminate; intros H; injection H as <-;
         rewrite le_dec_single; try reflexivity.
       destruct (z =? 0)%Z; reflexivity.
-    + destruct v; try discriminate. destruct (bits <? pow256 4) eqn:E; [|discriminate].
-      intros H; injection H as <-. rewrite dec_enc_small by lia. reflexivity.
-    + destruct v; try discriminate. destruct (bits <? pow256 8) eqn:E; [|discriminate].
-      intros H; injection H as <-. rewrite dec_enc_small by lia. reflexivity.
+    + intros H. apply pack_one_f_inv in H. destruct H as (bits & -> & Hb & ->).
+      cbn [unpack_one]. rewrite dec_enc_small by exact Hb. reflexivity.
+    + intros H. apply pack_one_d_inv in H. destruct H as (bits & -> & Hb & ->).
+      cbn [unpack_one]. rewrite dec_enc_small by exact Hb. reflexivity.
     + discriminate.
 Qed.
 
@@ -244,7 +467,7 @@ Proof.
   destruct (code_case (icode it)) as [Hc|[Hc|[Hx Hs]]].
   - unfold pack_item. rewrite Hc. intros H; injection H as <- <-.
     rewrite repeat_length. cbn [code_size]. lia.
-  - unfold pack_item. rewrite Hc. destruct vs as [|[| |l| |] vs]; try discriminate.
+  - unfold pack_item. rewrite Hc. destruct vs as [|[| |l| | |] vs]; try discriminate.
     destruct (wf_bytesb l); [|discriminate]. intros H; injection H as <- <-.
     rewrite pad_length. cbn [code_size]. lia.
   - rewrite pack_item_many by assumption. apply pack_many_length.
@@ -256,7 +479,7 @@ Proof.
   destruct (code_case (icode it)) as [Hc|[Hc|[Hx Hs]]].
   - unfold pack_item. rewrite Hc. intros H; injection H as <- <-.
     apply wf_bytes_repeat0.
-  - unfold pack_item. rewrite Hc. destruct vs as [|[| |l| |] vs]; try discriminate.
+  - unfold pack_item. rewrite Hc. destruct vs as [|[| |l| | |] vs]; try discriminate.
     destruct (wf_bytesb l) eqn:El; [|discriminate]. intros H; injection H as <- <-.
     apply wf_bytes_firstn, wf_bytes_app; [now apply wf_bytesb_iff|apply wf_bytes_repeat0].
   - rewrite pack_item_many by assumption. apply pack_many_wf.
@@ -269,7 +492,7 @@ Proof.
   - unfold pack_item, canon_item, unpack_item. rewrite Hc.
     intros H; injection H as <- <-. reflexivity.
   - unfold pack_item, canon_item, unpack_item. rewrite Hc.
-    destruct vs as [|[| |l| |] vs]; try discriminate.
+    destruct vs as [|[| |l| | |] vs]; try discriminate.
     destruct (wf_bytesb l); [|discriminate]. intros H; injection H as <- <-.
     rewrite (firstn_all2 (n := icnt it) (firstn _ _)) by (rewrite pad_length; lia).
     reflexivity.
@@ -375,6 +598,35 @@ Proof.
   rewrite le_dec_enc, N.mod_small by exact Hr. reflexivity.
 Qed.
 
+(** * float codes given ints / bools: facts observed on CPython 3, pinned *)
+Import String.
+Definition pack_str (s : String.string) (vs : list value) : option bytes :=
+  match parse_fmt s with Some f => pack f vs | None => None end.
+
+Example pack_f_int5 : pack_str "<f"%string (VInt 5 :: nil) = Some (0 :: 0 :: 160 :: 64 :: nil).
+Proof. vm_compute. reflexivity. Qed.
+(* double rounding: 2^60 + 2^36 + 1 -> double 2^60 + 2^36 (a tie for single) -> 2^60;
+   a single rounding would give 2^60 + 2^37, i.e. 5d 80 00 01 *)
+Example pack_f_double_rounding :
+  pack_str ">f"%string (VInt (2 ^ 60 + 2 ^ 36 + 1) :: nil) = Some (93 :: 128 :: 0 :: 0 :: nil).
+Proof. vm_compute. reflexivity. Qed.
+Example pack_f_overflow : pack_str "<f"%string (VInt (2 ^ 128 - 2 ^ 103) :: nil) = None.
+Proof. vm_compute. reflexivity. Qed.
+Example pack_d_overflow : pack_str "<d"%string (VInt (2 ^ 1024 - 1) :: nil) = None.
+Proof. vm_compute. reflexivity. Qed.
+Example pack_d_int5 :
+  pack_str "<d"%string (VInt 5 :: nil) = Some (0 :: 0 :: 0 :: 0 :: 0 :: 0 :: 20 :: 64 :: nil).
+Proof. vm_compute. reflexivity. Qed.
+Example pack_f_true : pack_str "<f"%string (VBool true :: nil) = Some (0 :: 0 :: 128 :: 63 :: nil).
+Proof. vm_compute. reflexivity. Qed.
+(* and they come back as the float they were rounded to *)
+Example unpack_pack_f_int5 :
+  canon_items (mkItem 1 Cf :: nil) (VInt 5 :: nil) = VF32 1084227584 :: nil.
+Proof. vm_compute. reflexivity. Qed.
+
+Print Assumptions ieee_encode_range.
+Print Assumptions pack_d_int.
+Print Assumptions pack_f_int.
 Print Assumptions unpack_pack.
 Print Assumptions pack_ints_ok.
 Print Assumptions unpack_many_le_raw.
